@@ -267,6 +267,10 @@ fn run_seq(ctx: &Ctx, rep: &mut Report, n: u64, seq: &[Call]) {
     let mut tg = Tagger(1000);
     let mut colgen = 0;
     let hist = || format!("{seq:?}");
+    // after the listed finding (columns() re-declared with another arity over an accepted source) the
+    // statement is non-rectangular by construction: its renderings are no longer compared, but what the
+    // remaining calls answer (Ok / the error and its numbers) still is
+    let mut results_only = false;
     for (step, call) in seq.iter().enumerate() {
         let before = stmt.clone();
         let before_sql = render3(&stmt);
@@ -423,6 +427,10 @@ fn run_seq(ctx: &Ctx, rep: &mut Report, n: u64, seq: &[Call]) {
             rep.violation(rule, "-", sig, json!({"history": hist(), "step": step, "detail": detail}), ctx.shard, n);
             return;
         }
+        if results_only {
+            rep.count("calls_checked_after_redeclaration", 1);
+            continue;
+        }
         let after_sql = match guard(|| render3(&stmt)) {
             Ok(s) => s,
             Err(p) => {
@@ -511,7 +519,11 @@ fn run_seq(ctx: &Ctx, rep: &mut Report, n: u64, seq: &[Call]) {
                     ctx.shard,
                     n,
                 );
-                return;
+                if !m.redeclared {
+                    return;
+                }
+                results_only = true;
+                break;
             }
         }
     }
